@@ -185,6 +185,38 @@ def diamond5(w0: int, w1: int, w2: int, w3: int, w4: int, r0: int, fmask: int, r
     return check(same, "incremental maintenance == derivation from scratch", lambda: (a, b))
 
 
+REORDER_OPS = ["D.remove_bases(A)", "D.remove_bases(B)", "D.remove_bases(C)", "D.add_bases(A)", "D.add_bases(B)", "D.add_bases(C)", "E.add_bases(A) (unrelated space)", "E.remove_bases(A)"]
+
+
+@harness
+def reorder(w3: int, r0: int, s1: int, s2: int, s3: int) -> bool:
+    """D:[A, B, C], every base defines f and r; a history of removing and re-adding bases of D, interleaved with structural
+    edits of an unrelated space E: after every step bases == C3 of the CURRENT ordered base lists (a re-added base goes last)
+    and the derived members are those of the first definer."""
+    s1, s2, s3 = pick(s1, 0, 7), pick(s2, 0, 7), pick(s3, 0, 7)
+    bases = {"A": [], "B": [], "C": [], "D": ["A", "B", "C"], "E": []}
+    fdef = {"A": 10, "B": 20, "C": 30}
+    rdef = {"A": r0, "B": r0 + 1, "C": r0 + 2}
+    h = Inh(5, bases, fdef, rdef, dict(zip(NAMES, [1, 2, 3, w3, 5])), "L")
+    if not h.check_all("initial"):
+        return False
+    for i, sel in enumerate((s1, s2, s3)):
+        ed, x, y = (4, 3, sel) if sel < 3 else (3, 3, sel - 3) if sel < 6 else (3, 4, 0) if sel == 6 else (4, 4, 0)
+        applied, r = _apply(h, ed, x, y, 0, i)
+        if not applied:
+            return True
+        label("%s%s" % (REORDER_OPS[sel], "" if r[0] == "ok" else " (rejected)"))
+        if not check(r[0] == "ok", "legal base edit raised", lambda: r):
+            return False
+        if not h.check_all("after step %d" % (i + 1)):
+            return False
+    scratch = Inh(5, h.bases, h.fdef, h.rdef, h.W, "S")
+    a, b = describe_inh(h), describe_inh(scratch)
+    with notrace():
+        same = a == b
+    return check(same, "incremental maintenance == derivation from scratch", lambda: (a, b))
+
+
 _N3 = dict(w0=1, w1=2, w2=3, r0=11, r1=12, r2=13, val=55, ed2=-1, x2=0, y2=0)
 
 
@@ -225,4 +257,10 @@ QUERIES.append(
           natives=[dict(w0=1, w1=2, w2=3, w3=4, w4=5, r0=7, fmask=f, rmask=r, ed=e, x=x, val=9) for (f, r, e, x) in ((1, 1, 4, 1), (3, 0, 2, 0), (1, 3, 6, 0), (5, 1, 1, 0), (2, 2, 4, 1), (1, 0, 0, 1))],
           bounds=lambda tier: {"spaces": "A; B:[A]; C:[B]; D:[C]; E:[D, B]", "definers_of_f": "subsets of {A,B,C}", "definers_of_r": "subsets of {A,B}", "edits": EDITS, "targets": "A, B, C"},
           outside=["other 5-space shapes"]))
+QUERIES.append(
+    Query("reorder", reorder, pre=["0 <= s1 < 8", "0 <= s2 < 8", "0 <= s3 < 8"],
+          partitions=lambda tier, seed: [dict(s1=a_, s2=[0, 3]) for a_ in range(3)] + [dict(s1=a_, s2=[4, 7]) for a_ in range(3)] + [dict(s1=6)],
+          natives=[dict(w3=4, r0=7, s1=a_, s2=b_, s3=c_) for (a_, b_, c_) in ((0, 1, 3), (0, 3, 6), (1, 4, 6), (2, 5, 0), (6, 0, 3), (0, 3, 1))],
+          bounds=lambda tier: {"spaces": "A, B, C (definers of f and r); D:[A, B, C]; E unrelated", "operations": REORDER_OPS, "history": "3 operations, the first a removal from D or the unrelated edit", "values": "D.w, r values: unbounded symbolic ints"},
+          outside=["histories longer than 3", "removing several bases in one call"]))
 BUDGET = {"quick": 420, "thorough": 1200}
